@@ -58,10 +58,22 @@ class Ctx:
         self.timeout_ms = timeout_ms
         self.feas_timeout_ms = feas_timeout_ms
         self.stats = stats or Stats()
-        self.solver = z3.Solver()
+        import os
+        mode = os.environ.get("SYMX_SOLVER", "")
+        if mode.startswith("logic:"):
+            self.solver = z3.SolverFor(mode[6:])
+        else:
+            self.solver = z3.Solver()
+        for kv in os.environ.get("SYMX_SOLVER_OPTS", "").split(","):
+            if "=" in kv:
+                k, v = kv.split("=")
+                self.solver.set(k, int(v) if v.lstrip("-").isdigit() else (v == "true" if v in ("true", "false") else v))
         self.solver.set("random_seed", seed % (1 << 30))
         self.solver.set("timeout", timeout_ms)
         self.decisions = []   # human-readable log of decisions
+        self.seed = seed
+        self._last = None
+        self.heavy = True    # decide feasibility with the fresh-solver configuration (faster on DP formulas)
 
     # ------------------------------------------------------------------ assumptions
     def assume(self, cond):
@@ -77,6 +89,7 @@ class Ctx:
     # ------------------------------------------------------------------ solving
     def _check(self, extra, timeout_ms=None):
         t0 = time.time()
+        self._last = None
         self.solver.set("timeout", timeout_ms or self.timeout_ms)
         r = self.solver.check(*extra)
         dt = time.time() - t0
@@ -93,6 +106,30 @@ class Ctx:
             st.unknown += 1
         return s
 
+    def fresh_sat(self, conds, timeout_ms=None):
+        """Same question as is_sat, decided by a fresh (non-incremental) solver: z3 then preprocesses the
+        whole formula, which is several times faster on the DP encodings than the incremental core."""
+        conds = [c for c in conds if not z3.is_true(c)]
+        if any(z3.is_false(c) for c in conds):
+            return "unsat"
+        s = z3.Solver()
+        s.set("arith.solver", 2)
+        s.set("random_seed", self.seed % (1 << 30))
+        s.set("timeout", timeout_ms or self.timeout_ms)
+        s.add(*self.base)
+        s.add(*self.pc)
+        s.add(*conds)
+        t0 = time.time()
+        r = str(s.check())
+        dt = time.time() - t0
+        st = self.stats
+        st.queries += 1
+        st.solver_s += dt
+        st.max_query_s = max(st.max_query_s, dt)
+        setattr(st, r if r in ("sat", "unsat") else "unknown", getattr(st, r if r in ("sat", "unsat") else "unknown") + 1)
+        self._last = s
+        return r
+
     def is_sat(self, conds, timeout_ms=None):
         """sat / unsat / unknown of  base & pc & conds."""
         conds = [c for c in conds if not z3.is_true(c)]
@@ -101,14 +138,14 @@ class Ctx:
         return self._check(conds, timeout_ms)
 
     def model(self):
-        return self.solver.model()
+        return (self._last or self.solver).model()
 
     def feasible(self, g):
         if g is FALSE:
             return False
         if g.is_true():
             return True
-        return self.is_sat(list(g.atoms), self.feas_timeout_ms) != "unsat"
+        return (self.fresh_sat if self.heavy else self.is_sat)(list(g.atoms), self.feas_timeout_ms) != "unsat"
 
     # ------------------------------------------------------------------ forking
     def decide(self, c):
@@ -121,8 +158,10 @@ class Ctx:
         if self.pos < len(self.trail):
             b = self.trail[self.pos]
         else:
-            ft = self.is_sat([c], self.feas_timeout_ms) != "unsat"
-            ff = self.is_sat([z3.Not(c)], self.feas_timeout_ms) != "unsat"
+            big = sum(len(str(type(x))) for x in ()) or len(self.base) + len(self.pc) > 0
+            chk = self.fresh_sat if self.heavy else self.is_sat
+            ft = chk([c], self.feas_timeout_ms) != "unsat"
+            ff = True if not ft else chk([z3.Not(c)], self.feas_timeout_ms) != "unsat"
             if ft and ff:
                 self.pending.append(self.trail[: self.pos] + [False])
                 b = True
@@ -134,6 +173,7 @@ class Ctx:
                 raise Infeasible()
             self.trail.append(b)
         self.pos += 1
+        self.decisions.append(("/".join(self.stack_depth[-2:]), b))
         cond = c if b else z3.Not(c)
         self.pc.append(cond)
         self.solver.add(cond)
@@ -165,7 +205,7 @@ class Ctx:
 
     def violated(self, ob, timeout_ms=None):
         """sat (with model) iff the obligation can fail on this path."""
-        return self.is_sat(list(ob.guard.atoms) + [z3.Not(ob.cond)], timeout_ms)
+        return self.fresh_sat(list(ob.guard.atoms) + [z3.Not(ob.cond)], timeout_ms)
 
     def check_claim(self, claim, timeout_ms=None, assuming=()):
         """Is  base & pc & assuming => claim  valid?  -> 'unsat' (holds) / 'sat' (model available) / 'unknown'."""
@@ -175,7 +215,16 @@ class Ctx:
             return "unsat"
         if claim is False:
             claim = z3.BoolVal(False)
-        return self.is_sat(list(assuming) + [z3.Not(claim)], timeout_ms)
+        import os
+        d = os.environ.get("SYMX_DUMP")
+        if d:
+            self.solver.push()
+            self.solver.add(*assuming)
+            self.solver.add(z3.Not(claim))
+            n = len(os.listdir(d))
+            open(os.path.join(d, "q%03d.smt2" % n), "w").write(self.solver.to_smt2())
+            self.solver.pop()
+        return self.fresh_sat(list(assuming) + [z3.Not(claim)], timeout_ms)
 
 
 def explore(run_path, max_paths=2000, seed=0, timeout_ms=60000, stats=None):
